@@ -13,6 +13,7 @@ package c05
 import (
 	"fmt"
 	"sort"
+	"sync"
 	"testing"
 	"time"
 
@@ -32,8 +33,10 @@ var spellings = map[string][]string{
 	"/live/a": {"/live/a", "/Live/A", "live/a", " /live//a ", "/live/./a", "/LIVE/x/../a"},
 	"/live/b": {"/live/b", "/LIVE/B", "live/b", "/live/b/../b"},
 	"/c":      {"/c", "C", " /c ", "//c"},
+	// letters outside ASCII have cases too
+	"/cam/éö": {"/cam/éö", "/cam/ÉÖ", "/CAM/éÖ", "cam/Éö"},
 }
-var canonPaths = []string{"/live/a", "/live/b", "/c"}
+var canonPaths = []string{"/live/a", "/live/b", "/c", "/cam/éö"}
 
 // model -----------------------------------------------------------------------
 
@@ -402,4 +405,60 @@ func TestRegistryRaces(t *testing.T) {
 			s.Close()
 		}
 	})
+}
+
+// A close that does not come through Unregist (administrative delete, idle
+// close) racing the registration of a successor on the same path, free-running:
+// whichever order the two take, afterwards the path resolves to the successor
+// (it is registered and live). No schedule point lies inside the registry's own
+// critical sections, so this is unguided stress: two goroutines released together,
+// many rounds.
+func TestCloseRacingRegistStress(t *testing.T) {
+	config.VerifSet(":0", false, false, "", 5)
+	media.UnregistAll()
+	defer media.UnregistAll()
+	rounds := 4000
+	if evid.Thorough() {
+		rounds = 60000
+	}
+	for i := 0; i < rounds; i++ {
+		path := fmt.Sprintf("/c05/race/%d", i%7)
+		old, succ := newStream(path, true, false), newStream(path, true, false)
+		media.Regist(old)
+		start := make(chan struct{})
+		var wg sync.WaitGroup
+		wg.Add(2)
+		how := i % 3
+		go func() {
+			defer wg.Done()
+			<-start
+			switch how {
+			case 0:
+				old.Close()
+			case 1:
+				media.VerifIdleCloseTick(old, time.Nanosecond, media.StreamNoConsumer)
+			default:
+				media.Unregist(old)
+			}
+		}()
+		go func() { defer wg.Done(); <-start; media.Regist(succ) }()
+		close(start)
+		wg.Wait()
+		evid.Eval(1)
+		got := media.Get(path)
+		if got != succ {
+			evid.Violation(t, "successor-lost", map[string]any{"round": i, "old_ended_by": []string{"Close", "idle close", "Unregist"}[how]},
+				"round %d: the old stream was ended (%s) while its successor registered; afterwards lookup does not return the successor (nil=%v, successor status %d)",
+				i, []string{"Close", "idle close", "Unregist"}[how], got == nil, media.VerifStatus(succ))
+		}
+		if media.VerifStatus(old) == media.StreamOK {
+			evid.Violation(t, "old-still-live", map[string]any{"round": i}, "round %d: the replaced / closed stream is still live", i)
+		}
+		media.Unregist(succ)
+		if sc, _ := media.Count(); sc != 0 {
+			evid.Violation(t, "count", map[string]any{"round": i}, "round %d: %d streams left registered", i, sc)
+		}
+	}
+	evid.ClassN("stress: close / idle close / unregister racing the successor's Regist", int64(rounds))
+	evid.NontrivialN(int64(rounds) / 7 * 6) // rounds differ by (path, how) and by the schedule the runtime gave them; counted conservatively
 }
